@@ -743,25 +743,21 @@ Fixpoint need_conversion (t : dtype) : bool :=
   | _ => const_need_conversion (dtype_class t)
   end.
 
-(* StructType._match_fields_by_name: a Row holding the fields of the struct in another order (duplicate-free, same
-   names) is re-listed in schema order, its values looked up by name as the verifier does *)
+(* StructType._match_fields_by_name: a Row whose own field names are duplicate-free, are not the names of the struct
+   in this order, and among which EVERY name of the struct occurs (a permutation, e.g. a Row built from keyword
+   arguments; or a Row with more fields than the struct) is re-listed under the struct's names, the value of each
+   field looked up by name as the verifier does; any other Row is left as it is *)
 Fixpoint strs_eqb (a b : list str) : bool :=
   match a, b with
   | [], [] => true
   | x :: a', y :: b' => str_eqb x y && strs_eqb a' b'
   | _, _ => false
   end.
-Fixpoint ins_str (k : str) (l : list str) : list str :=
-  match l with
-  | [] => [k]
-  | k' :: r => if str_leb k k' then k :: l else k' :: ins_str k r
-  end.
-Definition sort_strs (l : list str) : list str := fold_right ins_str [] l.
 Fixpoint nodupb (l : list str) : bool :=
   match l with [] => true | x :: r => negb (str_mem x r) && nodupb r end.
 
 Definition match_fields_by_name (snames names : list str) (vals : list pyval) : res (list str * list pyval) :=
-  if negb (strs_eqb names snames) && nodupb names && strs_eqb (sort_strs names) (sort_strs snames)
+  if negb (strs_eqb names snames) && nodupb names && forallb (fun n => str_mem n names) snames
   then bind (mapM (row_get names vals) snames) (fun vs => Ok (snames, vs))
   else Ok (names, vals).
 
